@@ -31,6 +31,27 @@ Proof.
   destruct Hz as [Hz|[Hz|[Hz|[]]]]; rewrite Hz in *; apply opt_pct_unit; assumption.
 Qed.
 
+(* the printed string itself: optional align part, then for each of position / line / size either nothing (absent) or the
+   key followed by a number and "%" *)
+Definition setting_pct (key : str) (o : option size) (t : str) : Prop :=
+  (o = None /\ t = []) \/ (exists z, o = Some z /\ t = key ++ size_str z /\ pct_text (size_str z)).
+
+Theorem vtt_settings_text_percent : forall c lo v, vtt_convert_positioning c lo = Ok (VSet v) -> vs_nonneg v ->
+  exists t1 t2 t3,
+    vtt_settings_text (VSet v)
+    = (match vs_align v with Some h => lit " align:" ++ halign_name h | None => [] end) ++ t1 ++ t2 ++ t3
+    /\ setting_pct (lit " position:") (vs_position v) t1 /\ setting_pct (lit " line:") (vs_line v) t2
+    /\ setting_pct (lit " size:") (vs_size v) t3.
+Proof.
+  intros c lo v H N. pose proof (vtt_text_percent c lo v H N) as P.
+  exists (setting_text (lit " position:") (vs_position v)), (setting_text (lit " line:") (vs_line v)),
+         (setting_text (lit " size:") (vs_size v)).
+  split; [reflexivity|].
+  assert (A : forall key o, In o [vs_position v; vs_line v; vs_size v] -> setting_pct key o (setting_text key o)).
+  { intros key [z|] Ho; [right; exists z; repeat split; apply P; exact Ho|left; split; reflexivity]. }
+  repeat split; apply A; cbn; auto.
+Qed.
+
 (* and the text is made of exactly those pieces *)
 Theorem vtt_text_shape : forall v,
   vtt_settings_text (VSet v)
